@@ -2,11 +2,11 @@
    C13(b) -- no waker touches the bookkeeping of an nsync_wait_n call that has returned.
    Theorems about Model/WaitNModel.v: any number of threads, any number of objects per call (both the on-stack and
    the heap bookkeeping path, threshold nw_set_len), any mix of notes / counters / condition variables, any schedule,
-   the clock free to pass any deadline at any step.  Statements only; proofs in Proof/WaitNProof.v. *)
+   the clock free to pass any deadline at any step.  Statements only; proofs in Proof/WaitNProof.v and Proof/WaitNProof2.v. *)
 From NsyncBase Require Import CSem.
 From NsyncGen Require Import Consts Sites.
 From NsyncModel Require Import WaitNModel.
-From NsyncProof Require Import WaitNProof.
+From NsyncProof Require Import WaitNProof WaitNProof2.
 From Coq Require Import List ZArith Bool.
 Import ListNotations.
 Local Open Scope Z_scope.
@@ -69,6 +69,118 @@ Section C11.
     intros t mn j s Hpc Hj Hk. destruct (all_reachable nts cts progs clock0 sched Hinit) as [_ [H1 _]].
     eapply wakes_of_hinv; eauto.
   Qed.
+
+  (* ================= state forms (against the world, not against what the call computed) ================= *)
+
+  (* ---- the mutex (mu != NULL), at EVERY pc of the call ----
+     (a) as long as the unlock callback has not run, a caller that held mu at the call still holds it: through the first loop, the whole
+         enqueue loop, and -- when the loop stopped early -- through the dequeue loop up to the return;
+     (b) from the unlock callback up to (not including) the return it does not hold mu: in particular while it may sleep;
+     (c) at the return after an unlock it holds mu again.
+     f_held is the ghost "the caller held mu when it called" (the API's precondition), f_unlocked the local `unlocked` of wait.c. *)
+  Theorem C11_mutex_state : forall t m, let s := thr w t in in_call s -> f_mu (fr s) = Some m ->
+    (f_unlocked (fr s) = false -> f_held (fr s) = true -> muh w m = Some t) /\
+    (f_unlocked (fr s) = true -> pc_ s <> PRet -> muh w m <> Some t) /\
+    (f_unlocked (fr s) = true -> pc_ s = PRet -> muh w m = Some t).
+  Proof.
+    intros t m s Hin Hm. pose proof (minv_reachable nts cts progs clock0 sched t m Hin Hm) as M. fold w in M. fold s in M. simpl in M.
+    destruct (f_unlocked (fr s)); splits; try discriminate; auto.
+    - intros _ Hp. destruct (Nat.eqb (pcls (pc_ s)) 3) eqn:E; auto. apply pcls_ret in E. contradiction.
+    - intros _ Hp. rewrite Hp in M. exact M.
+  Qed.
+  (* `unlocked` is set exactly when the unlock callback is in the call's log *)
+  Theorem C11_unlocked_flag : forall t, let s := thr w t in in_call s ->
+    (f_unlocked (fr s) = true <-> before_unlock (f_log (fr s)) <> None).
+  Proof. intros t s Hin. eapply unlocked_iff_of_linv2; eauto. apply inv2_reachable. Qed.
+  (* the caller does not hold the mutex while it reads the ready times of the sleep loop or sleeps (a wait.c without lines 61-64 fails here),
+     and holds it again when it returns, whichever path it took *)
+  Theorem C11_sleeps_unlocked : forall t m, let s := thr w t in
+    (exists mn, pc_ s = PSleep mn) \/ (exists j mn, pc_ s = PReady j mn) -> f_mu (fr s) = Some m ->
+    f_unlocked (fr s) = true /\ muh w m <> Some t.
+  Proof.
+    intros t m s Hpc Hm. unfold s in *. clear s.
+    pose proof (inv2_reachable nts cts progs clock0 sched t) as L2. fold w in L2. unfold linv2 in L2.
+    assert (Hu : f_unlocked (fr (thr w t)) = true).
+    { destruct Hpc as [[mn Hpc] | [j [mn Hpc]]]; rewrite Hpc in L2; destruct L2 as [_ [A _]]; apply A; rewrite Hm; discriminate. }
+    split; auto. assert (Hin : in_call (thr w t)) by (unfold in_call; destruct Hpc as [[mn Hpc] | [j [mn Hpc]]]; rewrite Hpc; exact I).
+    destruct (C11_mutex_state t m Hin Hm) as [_ [B _]]. apply B; auto. destruct Hpc as [[mn Hpc] | [j [mn Hpc]]]; congruence.
+  Qed.
+  Theorem C11_mutex_held_on_return : forall t m, let s := thr w t in
+    pc_ s = PRet -> f_mu (fr s) = Some m -> f_held (fr s) = true -> muh w m = Some t.
+  Proof.
+    intros t m s Hpc Hm Hh. assert (Hin : in_call s) by (unfold in_call; rewrite Hpc; exact I).
+    destruct (C11_mutex_state t m Hin Hm) as [A [_ C]]. destruct (f_unlocked (fr s)) eqn:E; [apply C; auto | apply A; auto].
+  Qed.
+  (* the order of the callbacks in the call's log, at every pc: the unlock callback is older than every P of the call and newer than the
+     enqueue calls of ALL indices count-1, ..., 0 (in this order: none skipped, none repeated); without an unlock callback the call has
+     made no P at all (it never sleeps holding the mutex) *)
+  Theorem C11_mutex_order : forall t m, let s := thr w t in in_call s -> f_mu (fr s) = Some m -> mutex_order (count s) (f_log (fr s)).
+  Proof. intros t m s Hin Hm. eapply mutex_order_of_linv2; eauto; [apply inv2_reachable | congruence]. Qed.
+
+  (* ---- the sleep deadline ----
+     at the timed P, min_ntime is EXACTLY the minimum of abs_deadline and the `count` ready times read in this round (the newest `count`
+     entries of the log, indices count-1 .. 0); it is positive; hence it is not after abs_deadline, not after any of those ready times,
+     and not after the expiry time of any note among the objects (a `max` in place of wait.c:71's `<` fails here). *)
+  Theorem C11_sleep_deadline : forall t mn, let s := thr w t in pc_ s = PSleep mn ->
+    mn = rmin (f_dl (fr s)) (f_log (fr s)) /\ map fst (round (f_log (fr s))) = rev (seq 0 (count s)) /\ time_pos mn = true /\
+    time_le mn (f_dl (fr s)) = true /\
+    (forall j nt, In (j, nt) (round (f_log (fr s))) -> time_le mn nt = true) /\
+    (forall j n, (j < count s)%nat -> objat s j = ONote n -> time_le mn (n_expiry (notes w n)) = true).
+  Proof.
+    intros t mn s Hpc. pose proof (inv2_reachable nts cts progs clock0 sched t) as L2. fold w in L2. fold s in L2.
+    destruct (sleep_of_linv2 _ _ _ _ L2 Hpc) as [A [B [C [D [E [F _]]]]]]. splits; auto.
+  Qed.
+  (* so the timed P can end as soon as the clock reaches the earliest of them (C12 is the licence for the P itself): the timeout step is
+     enabled, and it leads to the dequeue loop over all `count` objects, starting with object 0 *)
+  Theorem C11_sleep_timeout_enabled : forall t mn, pc_ (thr w t) = PSleep mn -> time_reached mn (clock w) = true ->
+    snd (fst (do_act w (Run t true))) = EvP PTimeout /\
+    let s' := thr (next w (Run t true)) t in
+    f_i (fr s') = count s' /\ count s' = count (thr w t) /\
+    (if (count s' =? 0)%nat then True else pc_ s' = PDeqPre 0 \/ pc_ s' = PDeq 0).
+  Proof. intros t mn Hpc Ht. apply (p_timeout_enabled w t mn); auto. apply linv_reachable. Qed.
+  (* a call that made a P (timed out or not) has, when it returns, dequeued -- re-examined -- every one of its `count` objects
+     (note_dequeue starts with nsync_note_notified_deadline_, which notifies an expired note) *)
+  Theorem C11_slept_examined : forall t, let s := thr w t in pc_ s = PRet -> has_p (f_log (fr s)) = true ->
+    forall j, (j < count s)%nat -> has_deq (f_log (fr s)) j.
+  Proof. intros t s Hpc Hp. eapply slept_examined_of_linv2; eauto. apply inv2_reachable. Qed.
+
+  (* ---- the returned index, against the WORLD ----
+     from the step that decided `ready = r < count` up to and including the return, object r is ready in the current state of the world:
+     a note is notified or its expiry time has been reached by the clock; a counter's value is 0; a cv record has been TAKEN by a
+     signaller / broadcaster (taker = Some u).  (The statement holds at every pc with ready < count, so in particular in the state right
+     after the deciding dequeue / ready_time step, and at PRet.) *)
+  Theorem C11_index_world : forall t, let s := thr w t in in_call s -> (f_ready (fr s) < count s)%nat ->
+    obj_ready_world w (objat s (f_ready (fr s))) (rec_of t s (f_ready (fr s))).
+  Proof. intros t s Hin Hlt. apply ready_inv_world. apply (idx_reachable nts cts progs clock0 sched Hinit t Hin Hlt). Qed.
+
+  (* ---- a call that returns `count` ----
+     the clock has reached abs_deadline; every one of the `count` first checks was made and gave a positive time; and EITHER
+     abs_deadline was <= 0 at the first test and the call did nothing else (no enqueue, no sleep: its log holds only the first checks),
+     OR abs_deadline > 0, a P of the call timed out, and every j < count has a dequeue that reported "still queued". *)
+  Theorem C11_timeout_strong : forall t, let s := thr w t in pc_ s = PRet -> f_ready (fr s) = count s ->
+    time_reached (f_dl (fr s)) (clock w) = true /\ (forall k, (k < count s)%nat -> has_first (f_log (fr s)) k) /\
+    ((time_pos (f_dl (fr s)) = false /\ only_first (f_log (fr s))) \/
+     (time_pos (f_dl (fr s)) = true /\ In (EvP PTimeout) (f_log (fr s)) /\
+      forall j, (j < count s)%nat -> exists onl, In (EvDeq j true onl) (f_log (fr s)))).
+  Proof.
+    intros t s Hpc Hr. destruct (all_reachable nts cts progs clock0 sched Hinit) as [_ [_ H2]].
+    apply (timeout_of_linv2 (clock w) (expiry w)); auto.
+    - destruct H2 as [_ Hc]. exact Hc.
+    - apply inv2_reachable.
+    - apply dq_reachable.
+    - now apply timeout_of_inv.
+  Qed.
+
+  (* ---- C13(b), the waker's two steps ----
+     the step of wake_waiters that clears `waiting` of record r has r in its footprint (it is the step that reads r's semaphore pointer)
+     and leaves the value read in the pc; the V step that follows touches no record at all *)
+  Theorem C13_psem_read_before_store : forall u c r rest, pc_ (thr w u) = PWake -> privs w u = r :: rest ->
+    In r (snd (do_act w (Run u c))) /\ pc_ (thr (next w (Run u c)) u) = PWakeV (owner r) /\ waiting (next w (Run u c)) r = 0 /\
+    privs (next w (Run u c)) u = rest.
+  Proof. intros u c r rest Hpc Hp. apply (wake_store_step w u c r rest Hpc Hp). Qed.
+  Theorem C13_v_touches_nothing : forall u c s, pc_ (thr w u) = PWakeV s ->
+    snd (do_act w (Run u c)) = [] /\ sem (next w (Run u c)) s = S (sem w s) /\ waiting (next w (Run u c)) = waiting w.
+  Proof. intros u c s Hpc. apply (wake_v_step w u c s Hpc). Qed.
 End C11.
 
 (* the statement as DESIGN.md has it: unlock only if ALL enqueues succeeded *)
@@ -143,6 +255,41 @@ Example C11_example_5 :
      EvDeq 4 true true; EvFree].
 Proof. vm_compute. repeat split; auto. Qed.
 
+(* ---------- non-vacuity of the state forms ---------- *)
+(* the call of example 2, stopped at its timed P: the caller held the mutex at the call (f_held), the unlock callback has run, NOBODY holds the
+   mutex while the caller sleeps; when it returns it holds it again *)
+Example C11_example_sleeps_unlocked :
+  let w := run (init wit_nts wit_cts ex2_progs 10) (repeat (Run 0 false) 12) in
+  pc_ (thr w 0) = PSleep None /\ f_mu (fr (thr w 0)) = Some 0%nat /\ f_held (fr (thr w 0)) = true /\ f_unlocked (fr (thr w 0)) = true /\
+  muh w 0%nat = None /\
+  let w' := run (init wit_nts wit_cts ex2_progs 10) ex2_sched in
+  pc_ (thr w' 0) = PRet /\ muh w' 0%nat = Some 0%nat /\ mutex_order 2 (f_log (fr (thr w' 0))) /\ taker w' (0, 0, 1)%nat = Some 1%nat.
+Proof. vm_compute. repeat split. Qed.
+
+(* abs_deadline = 0 (already passed), nothing ready: the call makes its `count` first checks (all positive times) and returns `count`
+   without an enqueue, an unlock or a sleep *)
+Definition ex0_progs (t : nat) : list op :=
+  match t with O => [OpWaitN None (Some 0) [ONote 0; OCounter 0]] | _ => [] end.
+Example C11_example_deadline_passed :
+  let w := run (init wit_nts wit_cts ex0_progs 10) (repeat (Run 0 false) 3) in
+  pc_ (thr w 0) = PRet /\ f_ready (fr (thr w 0)) = 2%nat /\ count (thr w 0) = 2%nat /\ time_pos (f_dl (fr (thr w 0))) = false /\
+  rev (f_log (fr (thr w 0))) = [EvCall; EvReady true 0 None; EvReady true 1 None].
+Proof. vm_compute. repeat split. Qed.
+
+(* a note that expires at 50, abs_deadline 100, clock 10: the timed P gets min_ntime = 50 (not 100); once the clock is past 50 the P times out, the
+   dequeue finds the note expired (and notifies it), and the call returns index 0 although the deadline has not been reached *)
+Definition exn_nts : nat -> note_st := fun _ => mk_note 0 (Some 50) [].
+Definition exn_progs (t : nat) : list op :=
+  match t with O => [OpWaitN None (Some 100) [ONote 0]] | _ => [] end.
+Example C11_example_note_expiry_bounds_sleep :
+  let w := run (init exn_nts wit_cts exn_progs 10) (repeat (Run 0 false) 5) in
+  pc_ (thr w 0) = PSleep (Some 50) /\ round (f_log (fr (thr w 0))) = [(0%nat, Some 50)] /\
+  let w' := run w ([Tick 45; Run 0 true] ++ repeat (Run 0 false) 2) in
+  pc_ (thr w' 0) = PRet /\ f_ready (fr (thr w' 0)) = 0%nat /\ clock w' = 55 /\ n_notified (notes w' 0) = 1 /\ f_dl_seen (fr (thr w' 0)) = false /\
+  rev (f_log (fr (thr w' 0))) =
+    [EvCall; EvReady true 0 (Some 50); EvInit 0 0; EvEnq 0 true; EvReady false 0 (Some 50); EvP PTimeout; EvDeqPre 0; EvDeq 0 false false].
+Proof. vm_compute. repeat split. Qed.
+
 Print Assumptions C11_mutex_partial.
 Print Assumptions C11_mutex_refuted.
 Print Assumptions C11_clean.
@@ -151,3 +298,15 @@ Print Assumptions C13_waker_footprint.
 Print Assumptions C11_index.
 Print Assumptions C11_timeout.
 Print Assumptions C11_wakes.
+Print Assumptions C11_mutex_state.
+Print Assumptions C11_unlocked_flag.
+Print Assumptions C11_sleeps_unlocked.
+Print Assumptions C11_mutex_held_on_return.
+Print Assumptions C11_mutex_order.
+Print Assumptions C11_sleep_deadline.
+Print Assumptions C11_sleep_timeout_enabled.
+Print Assumptions C11_slept_examined.
+Print Assumptions C11_index_world.
+Print Assumptions C11_timeout_strong.
+Print Assumptions C13_psem_read_before_store.
+Print Assumptions C13_v_touches_nothing.
